@@ -378,11 +378,13 @@ Definition soft_z3 (I : instance) : list (bexp * Z) :=
 Inductive decision := Placed (t start pool worker : Z) | Unplaced (t : Z).
 Definition dec_task (d : decision) : Z := match d with Placed t _ _ _ => t | Unplaced t => t end.
 Definition key_error : Z := 2.
-Definition worker_at (I : instance) (bits : Z) : option (Z * zworker) :=
-  match find (fun p => fst (snd p) =? bits) (indexed_from 0 (indexed_workers I)) with
-  | Some (k, (_, w)) => Some (k, w)
-  | None => None
+(* workers[bits] for the dict built by `workers[2**worker_index] = worker` *)
+Fixpoint worker_find (k : Z) (l : list zworker) (bits : Z) : option (Z * zworker) :=
+  match l with
+  | [] => None
+  | w :: l' => if 2 ^ k =? bits then Some (k, w) else worker_find (k + 1) l' bits
   end.
+Definition worker_at (I : instance) (bits : Z) : option (Z * zworker) := worker_find 0 (i_workers I) bits.
 Definition readback (I : instance) (a : asg) : result (list decision) :=
   sequence (map (fun t =>
     if truth a (VPlaced (zt_id t)) then
@@ -439,3 +441,59 @@ Definition c11_ok (ins : instance) (a : asg) : bool :=
 (* C11, predecessors that are running / scheduled and not offered: (child, expected finish) *)
 Definition outside_ok (outs : list (Z * Z)) (a : asg) : bool :=
   forallb (fun o => implb (truth a (VPlaced (fst o))) (a (VStart (fst o)) >=? snd o)) outs.
+
+(* ---------------------------------------------------------------- C10: what a feasible point means as a decision *)
+Definition worker_bits (ins : instance) (a : asg) (t : ztask) : Z := a (VWorker (zt_id t)) mod 2 ^ nworkers ins.
+Definition placed_on (ins : instance) (a : asg) (t : ztask) (k : Z) : bool :=
+  truth a (VPlaced (zt_id t)) && (worker_bits ins a t =? 2 ^ k).
+Definition res_bits (ins : instance) (a : asg) (t : ztask) (r : Z) : Z :=
+  match rsize ins r with Some s => a (VRes (zt_id t) r) mod 2 ^ s | None => 0 end.
+Definition t_start (a : asg) (t : ztask) : Z := a (VStart (zt_id t)).
+(* the scheduler's own notion of two executions touching (closed intervals [start, start + remaining]) *)
+Definition meets (a : asg) (t1 t2 : ztask) : bool :=
+  negb ((t_start a t1 + zt_remaining t1 <? t_start a t2) || (t_start a t2 + zt_remaining t2 <? t_start a t1)).
+
+(* decisions are well formed: existing worker of the named pool, start not before now / release *)
+Definition decision_ok (ins : instance) (d : decision) : bool :=
+  match d with
+  | Unplaced t => existsb (fun x => zt_id x =? t) (i_tasks ins)
+  | Placed t s pool k =>
+      (0 <=? k) &&
+      match nth_error (i_workers ins) (Z.to_nat k) with
+      | Some w => zw_pool w =? pool
+      | None => false
+      end &&
+      existsb (fun x => (zt_id x =? t) && (i_now ins <=? s) && (zt_release x <=? s)) (i_tasks ins)
+  end.
+Definition decisions_ok (ins : instance) (a : asg) : bool :=
+  match readback ins a with
+  | Ok ds => zlist_eqb (map dec_task ds) (map zt_id (i_tasks ins)) && forallb (decision_ok ins) ds
+  | Err _ => false
+  end.
+
+(* no resource slot is given to two tasks whose executions touch on the same worker *)
+Definition slots_ok (ins : instance) (a : asg) : bool :=
+  forallb (fun kw =>
+    forallb (fun p =>
+      implb (placed_on ins a (fst p) (fst kw) && placed_on ins a (snd p) (fst kw) && meets a (fst p) (snd p))
+            (forallb (fun rq => Z.land (res_bits ins a (fst p) (fst rq) mod 2 ^ snd rq)
+                                       (res_bits ins a (snd p) (fst rq) mod 2 ^ snd rq) =? 0)
+                     (shared_keys (snd kw) (fst p) (snd p))))
+      (pairs ins)) (indexed_from 0 (i_workers ins)).
+
+(* worker capacity at the start instants of the placed tasks: demand of the tasks executing there
+   (start <= tau < start + remaining), as the scheduler reckons it (fastest compatible strategy), against
+   the quantity available when schedule() was called *)
+Definition demand (w : zworker) (t : ztask) (r : Z) : Z := match req w t r with Some q => q | None => 0 end.
+Definition active_at (a : asg) (t : ztask) (tau : Z) : bool :=
+  (t_start a t <=? tau) && (tau <? t_start a t + zt_remaining t).
+Definition load (ins : instance) (a : asg) (k : Z) (w : zworker) (r tau : Z) : Z :=
+  fold_right (fun t acc => if placed_on ins a t k && active_at a t tau then demand w t r + acc else acc) 0 (i_tasks ins).
+Definition names_of (w : zworker) : list Z := dedup (map (fun k => fst (fst k)) (zw_res w)).
+Definition capacity_ok (ins : instance) (a : asg) : bool :=
+  forallb (fun kw =>
+    forallb (fun r =>
+      forallb (fun t => load ins a (fst kw) (snd kw) r (t_start a t) <=? avail (snd kw) r) (i_tasks ins))
+      (names_of (snd kw))) (indexed_from 0 (i_workers ins)).
+Definition returned_ok (ins : instance) (ds : list decision) : bool :=
+  zlist_eqb (map dec_task ds) (map zt_id (i_tasks ins)) && forallb (decision_ok ins) ds.
